@@ -12,8 +12,8 @@ shape with `ReadInstance` in the place of `CreateInstance`) on the stream model 
 What the registry / instance manager decide (is the keyword a known entity, is the id already taken, does the external
 mapping name a legal combination) enters as an *oracle* `Oracle`; the reading of an external mapping's parts
 (`CreateSubSuperInstance`) enters as a function `sub` of which the theorems only assume that it never un-reads.
-Not modelled: the `&SCOPE` branch (`CreateScopeInstances`, which re-enters `CreateInstance`) and the working-session state
-letter — exchange files without `&SCOPE` are the domain of the theorems (`_partial`). -/
+Not modelled: the `&SCOPE` branch (`CreateScopeInstances`, which re-enters `CreateInstance`) — files without `&SCOPE` are
+the domain of the theorems (`_partial`).  Working-session state letters are modelled (`headStage`). -/
 namespace StepModel.P21Safe
 
 def chEq : Byte := 61
@@ -143,46 +143,85 @@ def recoverLoop (findStart tok : IS → Out LoopRes) : Nat → IS → Byte → N
   | 0 => fun _ _ _ => .outOfFuel
   | fuel + 1 => recoverStep (recoverLoop findStart tok fuel) findStart tok
 
-/-- one iteration of `while( in.good() && !endsec )`.  `c` is the C variable, stale across iterations. -/
-def dataStep (rec : IS → Bool → Byte → Nat → Nat → Nat → Out DataRes) (recover : IS → Byte → Nat → Out (IS × Byte × Bool × Nat))
-    (ci tok : IS → Out LoopRes) (maxErr : Nat)
-    (s : IS) (endsec : Bool) (c : Byte) (nc cnt steps : Nat) : Out DataRes :=
+/-- `strchr( "CIND", c )` — the terminating NUL of the literal matches `c == 0` too -/
+def isStateLetter (c : Byte) : Bool := c = 67 || c = 73 || c = 78 || c = 68 || c = 0
+
+/-- the head of one iteration: `ReadTokenSeparator; in >> c;` and, for a working-session file, the state letter:
+`if( strchr( "CIND", c ) ) { inst_state = EntityWfState( c ); ReadTokenSeparator; in >> c; }`
+(pass 1 sets `incompleteSE` for any other character, pass 2 keeps the previous `inst_state`).
+Returns stream, `c`, "the instance is marked deleted", steps. -/
+def headStage (tok : IS → Out LoopRes) (wsMode pass2 : Bool) (s : IS) (c : Byte) (del : Bool) (steps : Nat) :
+    Out (IS × Byte × Bool × Nat) :=
+  match tok s with
+  | .ok r0 =>
+    let c1 := (r0.s.extract).2.getD c
+    if wsMode && isStateLetter c1 then
+      match tok (r0.s.extract).1 with
+      | .ok r1 => .ok ((r1.s.extract).1, (r1.s.extract).2.getD c1, c1 = 68, steps + 2 + r0.steps + r1.steps)
+      | .overflow i k => .overflow i k
+      | .outOfFuel => .outOfFuel
+    else .ok ((r0.s.extract).1, c1, if wsMode && !pass2 then false else del, steps + 1 + r0.steps)
+  | .overflow i k => .overflow i k
+  | .outOfFuel => .outOfFuel
+
+/-- one iteration of `while( in.good() && !endsec )` of `ReadData1` / `ReadData2`.  `c` and `del` (`inst_state == deleteSE`)
+are the C variables, kept across iterations.  `inst del s` reads one instance (`CreateInstance` resp. `ReadInstance`, or
+`SkipInstance` when the instance is marked deleted): `sev` 1 = counted as good, 0 = counted against `_maxErrorCount`,
+2 = not counted (pass 2, deleted). -/
+def dataStep (rec : IS → Bool → Byte → Bool → Nat → Nat → Nat → Out DataRes)
+    (recover : IS → Byte → Nat → Out (IS × Byte × Bool × Nat))
+    (inst : Bool → IS → Out LoopRes) (tok : IS → Out LoopRes) (wsMode pass2 : Bool) (maxErr : Nat)
+    (s : IS) (endsec : Bool) (c : Byte) (del : Bool) (nc cnt steps : Nat) : Out DataRes :=
   if s.good && !endsec then
-    match tok s with
-    | .ok r0 =>
-      match r0.s.extract with
-      | (s1, c1?) =>
-        let c1 := c1?.getD c
-        let rc : Out (IS × Byte × Bool × Nat) :=
-          if c1 ≠ chHash then recover (s1.putback c1) c1 (steps + 1 + r0.steps) else .ok (s1, c1, false, steps + 1 + r0.steps)
-        match rc with
-        | .ok (s2, c2, true, st) => rec s2 true c2 nc cnt st
-        | .ok (s2, c2, false, st) =>
-          match ci s2 with
-          | .ok r =>
-            let (nc', cnt') := if r.sev = 1 then (nc, cnt + 1) else (nc + 1, cnt)
-            if nc' > maxErr then .ok ⟨r.s, false, nc', cnt', st + r.steps, true⟩
-            else
-              let (s3, e) := foundEndSecKywd r.s
-              rec s3 e c2 nc' cnt' (st + r.steps + 1)
-          | .overflow i k => .overflow i k
-          | .outOfFuel => .outOfFuel
+    match headStage tok wsMode pass2 s c del steps with
+    | .ok (s1, c1, del1, st0) =>
+      let rc : Out (IS × Byte × Bool × Nat) :=
+        if c1 ≠ chHash then recover (s1.putback c1) c1 st0 else .ok (s1, c1, false, st0)
+      match rc with
+      | .ok (s2, c2, true, st) => rec s2 true c2 del1 nc cnt st
+      | .ok (s2, c2, false, st) =>
+        match inst (wsMode && del1) s2 with
+        | .ok r =>
+          let (nc', cnt') := if r.sev = 1 then (nc, cnt + 1) else if r.sev = 0 then (nc + 1, cnt) else (nc, cnt)
+          if nc' > maxErr then .ok ⟨r.s, false, nc', cnt', st + r.steps, true⟩
+          else
+            let (s3, e) := foundEndSecKywd r.s
+            rec s3 e c2 del1 nc' cnt' (st + r.steps + 1)
         | .overflow i k => .overflow i k
         | .outOfFuel => .outOfFuel
+      | .overflow i k => .overflow i k
+      | .outOfFuel => .outOfFuel
     | .overflow i k => .overflow i k
     | .outOfFuel => .outOfFuel
   else .ok ⟨s, endsec, nc, cnt, steps, false⟩
 
-def dataLoop (recover : IS → Byte → Nat → Out (IS × Byte × Bool × Nat)) (ci tok : IS → Out LoopRes) (maxErr : Nat) :
-    Nat → IS → Bool → Byte → Nat → Nat → Nat → Out DataRes
-  | 0 => fun _ _ _ _ _ _ => .outOfFuel
-  | fuel + 1 => dataStep (dataLoop recover ci tok maxErr fuel) recover ci tok maxErr
+def dataLoop (recover : IS → Byte → Nat → Out (IS × Byte × Bool × Nat)) (inst : Bool → IS → Out LoopRes) (tok : IS → Out LoopRes)
+    (wsMode pass2 : Bool) (maxErr : Nat) : Nat → IS → Bool → Byte → Bool → Nat → Nat → Nat → Out DataRes
+  | 0 => fun _ _ _ _ _ _ _ => .outOfFuel
+  | fuel + 1 => dataStep (dataLoop recover inst tok wsMode pass2 maxErr fuel) recover inst tok wsMode pass2 maxErr
 
-/-- `ReadData1` on an exchange file: `endsec = FoundEndSecKywd( in )` first, then the loop -/
-def readData1 (o : Oracle) (sub : IS → IS) (cm : Bool) (iters maxErr fuel : Nat) (s : IS) : Out DataRes :=
+/-- an instance marked deleted (working-session file) is skipped with `SkipInstance` and not counted, in both passes -/
+def instOrSkip (rd skip : IS → Out LoopRes) (del : Bool) (s : IS) : Out LoopRes :=
+  if del then
+    match skip s with
+    | .ok r => .ok ⟨r.s, 2, 0, r.steps⟩
+    | .overflow i k => .overflow i k
+    | .outOfFuel => .outOfFuel
+  else rd s
+
+/-- `ReadData1`: `endsec = FoundEndSecKywd( in )` first, then the loop.  `wsMode`: working-session file. -/
+def readData1 (o : Oracle) (sub : IS → IS) (cm wsMode : Bool) (iters maxErr fuel : Nat) (s : IS) : Out DataRes :=
   let tok := readTokenSeparator cm iters fuel
   let skip := skipInstance cm iters fuel
   let (s0, e) := foundEndSecKywd s
-  dataLoop (recoverLoop (findStartOfInstance fuel) tok fuel) (createInstanceSkel o sub tok skip) tok maxErr fuel s0 e 0 0 0 0
+  dataLoop (recoverLoop (findStartOfInstance fuel) tok fuel) (instOrSkip (createInstanceSkel o sub tok skip) skip) tok wsMode false
+    maxErr fuel s0 e 0 false 0 0 0
+
+/-- `ReadData2`: the same loop with `ReadInstance` (`ri`: any per-instance reader) in the place of `CreateInstance` -/
+def readData2 (ri : IS → Out LoopRes) (cm wsMode : Bool) (iters maxErr fuel : Nat) (s : IS) : Out DataRes :=
+  let tok := readTokenSeparator cm iters fuel
+  let skip := skipInstance cm iters fuel
+  let (s0, e) := foundEndSecKywd s
+  dataLoop (recoverLoop (findStartOfInstance fuel) tok fuel) (instOrSkip ri skip) tok wsMode true maxErr fuel s0 e 0 false 0 0 0
 
 end StepModel.P21Safe
